@@ -43,6 +43,10 @@ type Proj struct {
 	HelperV     int                       `json:"helperV"`
 	HelperNoise int                       `json:"helperNoise"`
 	Tgts        []*Tgt                    `json:"tgts"`
+	// Forms: how a referenced value is SPELLED where it is equal (==) to the plain integer: "" = 5, "float" = 5.0,
+	// "negzero" = -0.0 (value 0), "bool" = True / False (values 1 / 0); and "shared" for the aliasing of the list globals
+	// (LB = LA instead of LB = [..]). Keys: const|<label>, dflt|<label>, free|<label>, global|<pkg>|<name>, helperk, helperv, alias|<pkg>
+	Forms       map[string]string         `json:"forms,omitempty"`
 	Files       map[string]string         `json:"files"` // root-relative path → content (sources; files inside source dirs)
 	Dirs        []string                  `json:"dirs"`  // source directories
 }
@@ -64,6 +68,12 @@ func (p *Proj) clone() *Proj {
 	}
 	for k, v := range p.Files {
 		q.Files[k] = v
+	}
+	if p.Forms != nil {
+		q.Forms = map[string]string{}
+		for k, v := range p.Forms {
+			q.Forms[k] = v
+		}
 	}
 	for _, t := range p.Tgts {
 		c := *t
@@ -133,6 +143,29 @@ func (p *Proj) readPaths(t *Tgt) []string {
 	return out
 }
 
+// lit: the literal a value is written as at a position (see Proj.Forms)
+func (p *Proj) lit(key string, v int) string {
+	switch p.Forms[key] {
+	case "float":
+		return fmt.Sprintf("%d.0", v)
+	case "negzero":
+		if v == 0 {
+			return "-0.0"
+		}
+		return fmt.Sprintf("%d.0", v)
+	case "bool":
+		if v == 1 {
+			return "True"
+		}
+		if v == 0 {
+			return "False"
+		}
+	}
+	return fmt.Sprint(v)
+}
+
+func globalKey(pkg, name string) string { return "global|" + pkg + "|" + name }
+
 func quoteList(xs []string, prefix string) string {
 	qs := make([]string, len(xs))
 	for i, x := range xs {
@@ -153,8 +186,10 @@ func (p *Proj) form(t *Tgt) string {
 
 // valsExpr: the values the body mixes into its outputs; one-to-one with the descriptor.
 func (p *Proj) valsExpr(t *Tgt) string {
-	parts := []string{fmt.Sprint(t.CodeVer), fmt.Sprint(t.Const)}
-	if t.Global != "" {
+	parts := []string{fmt.Sprint(t.CodeVer), p.lit("const|"+t.Label(), t.Const)}
+	if t.Global == "LISTS" {
+		parts = append(parts, "(\"l\", LA, LB)")
+	} else if t.Global != "" {
 		parts = append(parts, fmt.Sprintf("(\"g\", %q, %s)", t.Global, t.Global))
 	}
 	if t.Helper {
@@ -175,14 +210,18 @@ func (p *Proj) valsExpr(t *Tgt) string {
 // descriptors must have different fingerprints.
 func (p *Proj) descriptor(t *Tgt) string {
 	g := ""
-	if t.Global != "" {
-		g = fmt.Sprintf("%s=%d", t.Global, p.Globals[t.Pkg][t.Global])
+	if t.Global == "LISTS" {
+		// the aliasing of the two lists is not observable by a body (frozen values): it is not part of what the body computes
+		g = fmt.Sprintf("LISTS=%d", p.Globals[t.Pkg]["LA"])
+	} else if t.Global != "" {
+		g = fmt.Sprintf("%s=%s", t.Global, p.lit(globalKey(t.Pkg, t.Global), p.Globals[t.Pkg][t.Global]))
 	}
 	h := ""
 	if t.Helper {
-		h = fmt.Sprintf("K%d,V%d", p.HelperK, p.HelperV)
+		h = fmt.Sprintf("K%s,V%s", p.lit("helperk", p.HelperK), p.lit("helperv", p.HelperV))
 	}
-	return fmt.Sprintf("%s|%s|v%d|c%d|g:%s|h:%s|d%d|f%d|r:%s|w:%s", t.Label(), p.form(t), t.CodeVer, t.Const, g, h, t.Dflt, t.Free,
+	return fmt.Sprintf("%s|%s|v%d|c%s|g:%s|h:%s|d%s|f%s|r:%s|w:%s", t.Label(), p.form(t), t.CodeVer, p.lit("const|"+t.Label(), t.Const), g, h,
+		p.lit("dflt|"+t.Label(), t.Dflt), p.lit("free|"+t.Label(), t.Free),
 		strings.Join(p.readPaths(t), ","), strings.Join(t.Gens, ","))
 }
 
@@ -207,7 +246,19 @@ func (p *Proj) renderBuild(pkg string) string {
 	}
 	sort.Strings(gs)
 	for _, g := range gs {
-		fmt.Fprintf(&sb, "%s = %d\n", g, p.Globals[pkg][g])
+		if g == "LA" {
+			continue
+		}
+		fmt.Fprintf(&sb, "%s = %s\n", g, p.lit(globalKey(pkg, g), p.Globals[pkg][g]))
+	}
+	if v, ok := p.Globals[pkg]["LA"]; ok {
+		// two list globals with equal contents, either one object (LB = LA) or two
+		fmt.Fprintf(&sb, "LA = [%d, %d]\n", v, v+1)
+		if p.Forms["alias|"+pkg] == "shared" {
+			sb.WriteString("LB = LA\n")
+		} else {
+			fmt.Fprintf(&sb, "LB = [%d, %d]\n", v, v+1)
+		}
 	}
 	sb.WriteString("\n")
 	ind := "    "
@@ -233,9 +284,9 @@ func (p *Proj) renderBuild(pkg string) string {
 		switch p.form(t) {
 		case "closure":
 			fmt.Fprintf(&sb, "def _mk_%s(free):\n%sdef %s_fn():\n%s%s%s\n%s%s%s\n%sreturn %s_fn\n", t.Name, ind, t.Name, ind, ind, doc, ind, ind, body, ind, t.Name)
-			fmt.Fprintf(&sb, "target(%s, function=_mk_%s(%d))\n\n", kw, t.Name, t.Free)
+			fmt.Fprintf(&sb, "target(%s, function=_mk_%s(%s))\n\n", kw, t.Name, p.lit("free|"+t.Label(), t.Free))
 		case "default":
-			fmt.Fprintf(&sb, "@target(%s)\ndef %s_fn(self, dflt=%d):\n%s%s\n%s%s\n\n", kw, t.Name, t.Dflt, ind, doc, ind, body)
+			fmt.Fprintf(&sb, "@target(%s)\ndef %s_fn(self, dflt=%s):\n%s%s\n%s%s\n\n", kw, t.Name, p.lit("dflt|"+t.Label(), t.Dflt), ind, doc, ind, body)
 		default:
 			fmt.Fprintf(&sb, "@target(%s)\ndef %s_fn():\n%s%s\n%s%s\n\n", kw, t.Name, ind, doc, ind, body)
 		}
@@ -244,7 +295,7 @@ func (p *Proj) renderBuild(pkg string) string {
 }
 
 func (p *Proj) renderHelper() string {
-	return fmt.Sprintf("# helper module — noise %d\nHK = %d\n\ndef hf(x):\n    # helper function, version in the constant it adds\n    return x + %d\n", p.HelperNoise, p.HelperK, p.HelperV)
+	return fmt.Sprintf("# helper module — noise %d\nHK = %s\n\ndef hf(x):\n    # helper function, version in the constant it adds\n    return x + %s\n", p.HelperNoise, p.lit("helperk", p.HelperK), p.lit("helperv", p.HelperV))
 }
 
 func writeIfChanged(p string, content string) error {
@@ -370,6 +421,12 @@ func (e *Edit) apply(p *Proj, root string) error {
 		rebuild = true
 	case "helpernoise":
 		p.HelperNoise++
+		rebuild = true
+	case "form": // respell a value at one position: Name = the position's key, Text = the form
+		if p.Forms == nil {
+			p.Forms = map[string]string{}
+		}
+		p.Forms[e.Name] = e.Text
 		rebuild = true
 	case "comment":
 		p.Noise[e.Pkg]++
